@@ -23,15 +23,40 @@ Fixpoint mentions (ctx : list str) (e : expr) : bool :=
 Fixpoint lambda_free (e : expr) : bool :=
   match e with Node l cs => match l with LLambda _ => false | _ => true end && forallb lambda_free cs end.
 
-(* the subtree at a path, with the context that holds there (lambda parameters on the way are added) *)
+(* names bound for the k-th child of a generator expression: the iterable of a clause sees the targets of the clauses before it,
+   its conditions also its own targets, the element sees all of them (PreTranslator.preGeneratorExp) *)
+Fixpoint gen_ctx (clauses : list (list str * nat)) (k : nat) (acc : list str) : list str :=
+  match clauses with
+  | [] => acc
+  | (ts, n) :: r => match k with
+                    | 0 => acc
+                    | S k' => if k' <? n then ts ++ acc else gen_ctx r (k' - n) (ts ++ acc)
+                    end
+  end.
+
+(* the context of the k-th child: lambda parameters and generator targets are added to the context of the node *)
+Definition child_ctx (l : label) (ctx : list str) (k : nat) : list str :=
+  match l with LLambda args => args ++ ctx | LGen cl => gen_ctx cl k ctx | _ => ctx end.
+
+(* the subtree at a path, with the context that holds there *)
 Fixpoint sub_ctx (ctx : list str) (e : expr) (p : path) : option (list str * expr) :=
   match p with
   | [] => Some (ctx, e)
   | i :: p' => match e with Node l cs =>
                  match nth_error cs i with
-                 | Some c => sub_ctx (match l with LLambda args => args ++ ctx | _ => ctx end) c p'
+                 | Some c => sub_ctx (child_ctx l ctx i) c p'
                  | None => None
                  end end
+  end.
+
+(* the shape the marking relies on (weaker than wf of Model/C04Expr.v: dict / set displays and generator expressions are admitted) *)
+Fixpoint mwf (e : expr) : bool :=
+  match e with Node l cs =>
+    match l with
+    | LName _ | LConst _ | LNegConst _ | LSlice false false false => length cs =? 0
+    | LFormatted _ _ => length cs =? 1
+    | _ => true
+    end && forallb mwf cs
   end.
 
 (* ---------------------------------------------------------------- the marking, as coded *)
@@ -76,6 +101,7 @@ Definition has_children (l : label) (n : nat) : bool :=
 Definition hidden_child_blocks (l : label) : bool :=
   match l with
   | LLambda _ => true
+  | LGen _ => true                      (* the comprehension nodes of a generator expression are never dispatched *)
   | LFormatted _ (Some []) => true
   | _ => false
   end.
@@ -89,7 +115,7 @@ Definition post (ctx : list str) (l : label) (cs : list expr) (acs : list atree)
   | LName s => (if mem s ctx then None else Some true, false, false)
   | LConst _ | LNegConst _ => (Some true, true, false)
   | LSlice false false false => (Some true, true, false)
-  | LOp KList => (match cs with [] => Some true | _ => None end, false, false)     (* postList: only the empty display is marked by itself *)
+  | LOp KList | LDict => (match cs with [] => Some true | _ => None end, false, false)     (* postList, postDict: only the empty display is marked by itself *)
   | LKeyword _ => (None, match acs with [v] => a_cst v | _ => false end, false)
   | LOp KCall =>
       match cs, acs with
@@ -111,9 +137,13 @@ Definition post (ctx : list str) (l : label) (cs : list expr) (acs : list atree)
   | _ => (None, false, false)
   end.
 
+Definition mark_kids (mk : list str -> expr -> atree) (l : label) (ctx : list str) : nat -> list expr -> list atree :=
+  fix go (k : nat) (cs : list expr) : list atree :=
+    match cs with [] => [] | c :: r => mk (child_ctx l ctx k) c :: go (S k) r end.
+
 Fixpoint mark (ctx : list str) (e : expr) : atree :=
   match e with Node l cs =>
-    let acs := map (mark (match l with LLambda args => args ++ ctx | _ => ctx end)) cs in
+    let acs := mark_kids mark l ctx 0 cs in
     let '(e0, c0, r0) := post ctx l cs acs in
     let e1 := match e0 with
               | Some b => Some b
